@@ -43,6 +43,7 @@ class Session:
         self.records = [{"ev": "header", "jobs": jobdefs}]
         self.notes_seen = []
         self.cur_fg = 0          # gid label of the job the driver last put in the foreground
+        self.cur_run = 0         # ... and that has not yet given the prompt back (0: none)
         self.idmap = {}          # job id -> gid label, from the last jobs listing
         ok, _ = self.settle(10.0)
         if not ok:
@@ -175,6 +176,7 @@ class Session:
             jd = self.jobdefs[kw["d"] - 1]
             if not jd["bg"]:
                 self.cur_fg = jd["pids"][0]
+                self.cur_run = jd["pids"][0]
             line = " | ".join("vjob %d" % p for p in jd["pids"]) + (" &" if jd["bg"] else "")
             os.write(self.fd, line.encode() + b"\r")
             end = time.time() + 10
@@ -213,12 +215,18 @@ class Session:
             rec["tgt"] = self.idmap.get(kw["id"], 0)
             if ev == "fg" and rec["tgt"]:
                 self.cur_fg = rec["tgt"]
+                self.cur_run = rec["tgt"]
             os.write(self.fd, ("%s %d\r" % (ev, kw["id"])).encode())
         ok, text = self.settle()
         if not ok:
             raise Unsettled("shell did not settle after %s (syscall %s state %s)" % (rec, self.shell_syscall(), self.shell_state()))
         rec["obs"] = self.observe(text, want_jobs)
         rec["fgexp"] = self.cur_fg
+        # the job whose foreground wait is (or was until this very action) in progress: judged at the observation where the
+        # prompt is first seen again, then forgotten
+        rec["fgrun"] = self.cur_run
+        if rec["obs"]["prompt"]:
+            self.cur_run = 0
         if want_jobs:
             self.idmap = {j[0]: j[1] for j in rec["obs"]["jobs"]}
         self.records.append(rec)
